@@ -13,21 +13,27 @@ from lib.core import *
 from gen import c05_linearization as tr
 from gen import c07_meta as M
 from gen import c09_stats as tr_stats
+from gen import c14_revision as tr_rev
+from gen import c07_pointid as tr_pid
 
 ID = "C07"
-PROPS_FILES = ["Gama/Props/C07.lean", "Gama/Props/C07Compose.lean"]
-LEAN_TARGETS = ["Gama.Props.C07", "Gama.Props.C07Compose"]
+PROPS_FILES = ["Gama/Props/C07.lean", "Gama/Props/C07Compose.lean", "Gama/Props/C07Revision.lean"]
+LEAN_TARGETS = ["Gama.Props.C07", "Gama.Props.C07Compose", "Gama.Props.C07Revision"]
 DRIVERS = ["drv_input"]
 RULE = ("(a) input stream: PointID pairs from a pool of ASCII / digit / leading-zero / white-space / UTF-8 / long "
         "identifiers and random byte strings (distinct by the pair of byte strings, non-trivial = the two normalised "
-        "ids differ), sexagesimal literals and (value, stdev) attributes of single direction/angle/z-angle/azimuth "
+        "ids differ), TRIPLES of identifiers (transitivity; 45 % built so that an order comparing numeric ids as numbers and "
+        "everything else as strings would cycle: numeric n1 < n2 whose spellings sort the other way + an alphanumeric id "
+        "between the spellings) and std::map<PointID,int> filled with 8..14 such identifiers in random order (size, every "
+        "identifier found again, iteration ascending), sexagesimal literals and (value, stdev) attributes of single direction/angle/z-angle/azimuth "
         "observations sent through GKFparser, all 8x2 axes/angles combinations, remove/return_inconsistency on generated "
         "networks with coordinate and vector clusters; (b) metamorphic pairs: noisy gen_net networks of 7 families "
         "(all 13 observation types, fixed/free datum, correlated coordinate and vector clusters, levelling) x "
         "{translation up to 1e7 m, circle rotation (random, within 1e-6 gon of 0/200/400, onto the +-200 gon seam of the "
         "approximate orientation), permutation of points/clusters/observations, renaming (order preserving and not; "
         "numeric-looking, leading zeros, white space, UTF-8, XML-special), gon->degrees with equivalent stdev, from<->to "
-        "swaps, 8 axes x 2 angle senses}; distinct by (network text, transformation), non-trivial = the original adjusts; "
+        "swaps (70 % of them on the network extended by one or two points LISTED WITH COORDINATES ONLY - no fix/adj - and "
+        "distances / slope distances / height differences measured to them, always among the swapped observations), 8 axes x 2 angle senses}; distinct by (network text, transformation), non-trivial = the original adjusts; "
         "(c) wrap stream: the real LocalLinearization on (observed value, orientation, bearing) triples whose misclosure is "
         "every multiple of 200 gon from -800 to 1200 gon (directions), -400..400 (angles), -400..600 with all xNorthAngle "
         "values (azimuths), offsets 0, +-1e-4 ... +-3e-3 gon, incl. triples with reading, orientation and bearing all in "
@@ -53,7 +59,11 @@ LEVEL_TEXT = ("proof for the linearised problem, exploration beyond it: Lean 4 t
               "q_xx' = D_t q_xx D_t, q_bb' = D_s q_bb D_s (sigmas unchanged, covariances between mirrored and other "
               "unknowns change sign), and on the std_error_ellipse regenerated from network.h the y flip keeps both "
               "semi-axes and maps the bearing to pi - alpha (mod pi). "
-              "PointID::operator< is proved to be a strict total order on all byte strings; the degrees clause is proved "
+              "PointID::operator< / == / != REGENERATED from pointid.cpp on every run (tools/gen/c07_pointid.py) is proved to be a strict "
+              "total order on all byte strings; whether the revision keeps an observation does not depend on which end is "
+              "written first (C07_swap_preserves_active_view over C14's requirement table, regenerated from local_revision.cpp by "
+              "this check as well: the whole revision and the active view commute with exchanging the ends of distances, slope "
+              "distances, height and coordinate differences); the degrees clause is proved "
               "on the shared model of deg2gon (Gama.Angles.deg2gon, every accepted string) and the 1/0.324 rescaling is "
               "proved exact. NOT proved: the iteration to convergence, the approximate-orientation median (C06), number "
               "parsing/printing; these are explored by the metamorphic search on gama-local only.")
@@ -69,6 +79,10 @@ TRUSTED = ["tools/gen/c07_meta.py: the re-expressions themselves (what counts as
            "tools/gen/c05_linearization.py (translator of local_linearization.cpp, validated by C05's correspondence)",
            "expat, iostream number parsing (the input stream goes through GKFparser)",
            "tools/gen/c09_stats.py (translator of std_error_ellipse into Gen/StatsGen.lean, validated by C09's correspondence)",
+           "tools/gen/c07_pointid.py (translator of PointID::operator<, ==, != into Gen/PointIdCmp.lean; validated by the pid / "
+           "pid3 / pmap operations of the input stream)",
+           "tools/gen/c14_revision.py (translator of LocalRevision's requirement table, validated by C14's correspondence) and "
+           "C14's model of the revision (Model/Revise.lean)",
            "Trig R instance of Lemmas/C07Cofactor.lean: atan2 y x = Complex.arg (x + y i) (same meaning as C09's)",
            "Gama/Model/Angles.lean deg2gon (shared with C18, tied to gon2deg.cpp by C18's literal stream and by this check's "
            "dms / ang operations)"]
@@ -97,6 +111,13 @@ ALGS = ["envelope", "gso", "svd", "cholesky"]
 def translate(ctx):
     # the theorems are about the generated linearisation: make sure it is the current tree's
     tr.translate(ctx.repo, ctx.lean)
+    # C07_pointid_total_order is about PointID::operator< / == / != regenerated from pointid.cpp
+    try:
+        tr_pid.run(ctx.repo, ctx.lean / "Gama" / "Gen" / "PointIdCmp.lean")
+    except tr_pid.Unparsable as e:
+        raise TieBroken("c07_pointid translator", str(e))
+    except (OSError, IndexError, ValueError, KeyError) as e:
+        raise TieBroken("c07_pointid translator", repr(e))
     # C07_ellipse_transport is about the std_error_ellipse regenerated by C09's translator
     try:
         text = tr_stats.gen(ctx.repo)
@@ -107,6 +128,14 @@ def translate(ctx):
     f = ctx.lean / "Gama" / "Gen" / "StatsGen.lean"
     if not f.exists() or f.read_text() != text:
         f.write_text(text)
+    # C07_swap_preserves_active_view is about the requirement table of LocalRevision regenerated by C14's translator
+    # (which end of an observation has to be an active point): Gen/Revision.lean must be the current tree's
+    try:
+        tr_rev.run(ctx.repo, ctx.lean / "Gama" / "Gen" / "Revision.lean")
+    except tr_rev.Unparsable as e:
+        raise TieBroken("c14_revision translator", str(e))
+    except (OSError, IndexError, ValueError, KeyError) as e:
+        raise TieBroken("c14_revision translator", repr(e))
 
 
 def build_harness(ctx):
@@ -153,6 +182,65 @@ def pid_cases(ctx, n):
     return cases
 
 
+def mixed_ids(rng):
+    """three identifiers on which an order that compares numeric ids as numbers and everything else as strings would
+    cycle: numeric n1 < n2 whose spellings sort the other way (n2 has more digits and a smaller leading digit), and
+    an alphanumeric z that sorts between the two spellings (leading digit of n2, then a letter / non-ASCII byte)"""
+    l2 = rng.randint(1, 8)
+    l1 = rng.randint(l2 + 1, 9)
+    n1 = str(l1) + "".join(rng.choice("0123456789") for _ in range(rng.randint(0, 2)))
+    n2 = str(l2) + "".join(rng.choice("0123456789") for _ in range(len(n1) + rng.randint(0, 2)))
+    z = str(l2) + rng.choice(["a", "b", "Z", "x7", "é", "_", "a0", "A"])
+    return n1.encode(), n2.encode(), z.encode()
+
+
+def pid3_cases(ctx, n):
+    rng = ctx.rng
+    pool = [s.encode() for s in ID_POOL if "\x00" not in s]
+    out = []
+    for k in range(n):
+        r = rng.random()
+        if r < 0.45:
+            t = list(mixed_ids(rng))
+            rng.shuffle(t)
+        elif r < 0.8:
+            t = [rng.choice(pool) for _ in range(3)]
+        else:
+            t = [bytes(rng.choice(b"0123456789ab ") for _ in range(rng.randint(1, 4))) for _ in range(3)]
+        out.append(tuple(t))
+    return out
+
+
+def pmap_cases(ctx, n):
+    """identifier sets (8..14) mixing numeric ids of different lengths, alphanumeric ids that sort between their
+    spellings, and pool ids, in a random insertion order"""
+    rng = ctx.rng
+    pool = [s.encode() for s in ID_POOL if s.strip()]
+    out = []
+    for k in range(n):
+        ids = []
+        for _ in range(rng.randint(1, 3)):
+            ids += list(mixed_ids(rng))
+        ids += [str(rng.choice([2, 7, 9, 10, 25, 31, 100, 1234])).encode() for _ in range(rng.randint(1, 4))]
+        ids += [rng.choice(pool) for _ in range(rng.randint(1, 4))]
+        ids += [rng.choice([b"1a", b"1b", b"3c", b"b2", b"2x", b"9z", b"10a"]) for _ in range(rng.randint(1, 3))]
+        rng.shuffle(ids)
+        out.append(ids)
+    return out
+
+
+def pid3_oracle(t):
+    """transitivity over all arrangements of the triple, on the implementation's own six answers ab ba bc cb ac ca"""
+    ab, ba, bc, cb, ac, ca = (x == "1" for x in t[1:7])
+    lt = {("a", "b"): ab, ("b", "a"): ba, ("b", "c"): bc, ("c", "b"): cb, ("a", "c"): ac, ("c", "a"): ca}
+    for x in "abc":
+        for y in "abc":
+            for z in "abc":
+                if len({x, y, z}) == 3 and lt[(x, y)] and lt[(y, z)] and not lt[(x, z)]:
+                    return f"{x} < {y} and {y} < {z} but not {x} < {z}"
+    return None
+
+
 def dms_text(rng):
     r = rng.random()
     d, m = rng.randint(0, 399), rng.randint(0, 59)
@@ -187,6 +275,12 @@ def input_cases(ctx):
     for a, b in pid_cases(ctx, ctx.size(1500, 30000)):
         cases.append([f"pid {hx(a)} {hx(b)}"])
         kinds.append(("pid", a, b))
+    for a, b, c in pid3_cases(ctx, ctx.size(400, 6000)):
+        cases.append([f"pid3 {hx(a)} {hx(b)} {hx(c)}"])
+        kinds.append(("pid3", a, b, c))
+    for ids in pmap_cases(ctx, ctx.size(150, 2000)):
+        cases.append(["pmap " + " ".join(hx(i) for i in ids)])
+        kinds.append(("pmap", tuple(ids)))
     for _ in range(ctx.size(300, 5000)):
         t = dms_text(rng)
         cases.append([f"dms {hx(t)}"])
@@ -275,12 +369,13 @@ def correspond_input(ctx, corr, tmp):
     impl, crashes = run_cases(exe, cases)
     model, _ = run_cases(ctx.driver("drv_input"), cases)
     numeric = eqn = lts = degs = flips = covflips = 0
+    pid3_cycles = pid3_reported = pmaps = pmap_bad = 0
     for i, c in enumerate(cases):
         k = kinds[i]
         key = None
         if k[0] == "pid":
             key = ("pid", k[1], k[2]) if M.norm_id(k[1].decode("latin1")) != M.norm_id(k[2].decode("latin1")) else None
-        elif k[0] in ("dms", "ang"):
+        elif k[0] in ("dms", "ang", "pid3", "pmap"):
             key = k
         elif k[0] == "flip":
             key = ("flip", i)
@@ -296,6 +391,25 @@ def correspond_input(ctx, corr, tmp):
                 corr.fail("remove_inconsistency is not idempotent (a second call changes points / observations / covariances)",
                           {"stream": "input", "ops": c, "impl": impl[i], "gkf": gkf.read_text() if gkf.exists() else None},
                           site="LocalNetwork::remove_inconsistency")
+        if k[0] == "pid3" and impl[i] and impl[i][0].startswith("ok "):
+            why = pid3_oracle(impl[i][0].split())
+            pid3_cycles += why is not None
+            if why is not None and pid3_reported < 2:
+                pid3_reported += 1
+                ids3 = [x.decode("latin1") for x in k[1:]]
+                corr.fail(f"PointID::operator< is not transitive on a={ids3[0]!r} b={ids3[1]!r} c={ids3[2]!r}: {why}",
+                          {"stream": "input", "ops": c, "impl": impl[i]}, site="PointID::operator<")
+        if k[0] == "pmap" and impl[i] and impl[i][0].startswith("ok "):
+            t_ = impl[i][0].split()
+            want_size = len({M.norm_id(x.decode("latin1")) for x in k[1]})
+            pmaps += 1
+            if (int(t_[1]) != want_size or int(t_[2]) != len(k[1]) or t_[3] != "1"):
+                pmap_bad += 1
+                if pmap_bad <= 2:
+                    corr.fail(f"std::map<PointID,...> filled with {len(k[1])} identifiers ({want_size} distinct): size {t_[1]}, "
+                              f"{t_[2]} found again, iteration ascending: {t_[3]}",
+                              {"stream": "input", "ops": c, "impl": impl[i], "ids": [x.decode("latin1") for x in k[1]]},
+                              site="PointID::operator<")
         # flip: values are angular observations normalised by the constructors (norm_rad_val) -> tolerant on those only
         rt = 1e-12 if k[0] == "flip" else 0.0
         if len(impl[i]) != len(model[i]) or not all(lines_equal(a, b, rtol=rt, atol=rt) for a, b in zip(impl[i], model[i])):
@@ -315,6 +429,9 @@ def correspond_input(ctx, corr, tmp):
             flips += impl[i][0].split("#")[0] != impl[i][0].split("#")[2]
             covflips += any(t.startswith("0x") and t[2] in "89abcdef" for seg in impl[i][0].split("#")[0].split(":")[1:]
                             for t in seg.split(";")[0].split())
+    corr.count("pid_triples_intransitive", pid3_cycles)
+    corr.count("pid_maps_filled", pmaps)
+    corr.count("pid_maps_inconsistent", pmap_bad)
     corr.count("pid_pairs_ordered", lts)
     corr.count("pid_pairs_equal_after_normalisation", eqn)
     corr.count("pid_pairs_with_numeric_id", numeric)
@@ -641,11 +758,16 @@ def meta_cases(ctx, n):
         for _ in range(3):
             kind = kinds[k % len(kinds)]
             k += 1
-            spec = M.random_spec(rng, net, kind)
+            net_k = net
+            if kind == "swap" and rng.random() < 0.7:
+                # points listed with coordinates only (no fix/adj) as one end of distances / slope distances / height
+                # differences: left out by the revision, whichever end they are written at
+                net_k = M.with_unused_points(rng, net)
+            spec = M.random_spec(rng, net_k, kind)
             if spec is None:
                 continue
             algs = ALGS if ctx.thorough else [ALGS[len(out) % 4]]
-            out.append((net, spec, algs))
+            out.append((net_k, spec, algs))
     # every one of the 8 axes x 2 angle senses at least once as the target of a mirror of a network WITH azimuths
     # (the north bearing of the x axis only matters for azimuths; random draws reach a given combination rarely)
     for i, axes in enumerate(M.AXES):
@@ -694,6 +816,9 @@ def search_meta(ctx, corr, n, wd, gama):
                   sample={"family": net.get("family"), "spec": json.dumps(spec, ensure_ascii=False)[:200], "alg": alg,
                           "violations": len(bad)} if i % 37 == 0 else None)
         corr.count("pairs_" + kind)
+        if spec["kind"] == "swap" and net.get("unused_uids"):
+            corr.count("pairs_swap_with_coordinates_only_points")
+            corr.count("swapped_observations_to_coordinates_only_points", len(net["unused_uids"]))
         corr.count("family_" + str(net.get("family")))
         corr.maxstat("max_tolscale", ts)
         if ea is not None:
@@ -791,6 +916,8 @@ def correspond(ctx, corr):
         for k in ("translate", "rotate", "rotate-seam", "permute", "rename", "degrees", "swap", "mirror"):
             if corr.stats.get("pairs_" + k, 0) < 5:
                 corr.inconclusive.append(f"fewer than 5 pairs of kind {k}")
+        if corr.stats.get("pairs_swap_with_coordinates_only_points", 0) < 3:
+            corr.inconclusive.append("fewer than 3 swap pairs with a point listed with coordinates only as one end of an observation")
         if corr.stats.get("original_not_adjusted", 0) > 0.1 * max(1, corr.evaluations):
             corr.inconclusive.append("more than 10 % of the generated networks do not adjust")
     finally:
@@ -840,6 +967,13 @@ def replay(ctx, payload):
             return 0 if abs(rhs - inp["expected_rhs_cc"]) <= WRAP_TOL_CC or \
                 abs(abs(rhs) - 200e4) <= WRAP_TOL_CC and abs(abs(inp["expected_rhs_cc"]) - 200e4) <= WRAP_TOL_CC else 1
         if inp.get("stream") == "input":
+            try:
+                translate(ctx)          # the driver must be the model of THIS tree (Gen/PointIdCmp.lean is regenerated)
+            except TieBroken as e:
+                print("translator:", e)
+            ok, log = ctx.lake_build(DRIVERS)
+            if not ok:
+                print("lake build drv_input failed:", log[-400:])
             exe = build_harness(ctx)
             ops = list(inp["ops"])
             if inp.get("gkf") and ops and ops[0].startswith("flip "):      # the op line names a file: restore it
@@ -855,6 +989,14 @@ def replay(ctx, payload):
             rt = 1e-12 if ops and ops[0].startswith("flip ") else 0.0
             same = len(impl[0]) == len(model[0]) and all(lines_equal(a, b, rtol=rt, atol=rt) for a, b in zip(impl[0], model[0]))
             idem = True
+            if ops and ops[0].startswith("pid3 ") and impl[0] and impl[0][0].startswith("ok "):
+                why = pid3_oracle(impl[0][0].split())
+                print("transitive on the triple:", why is None, why or "")
+                idem = why is None
+            if ops and ops[0].startswith("pmap ") and impl[0] and impl[0][0].startswith("ok "):
+                t_ = impl[0][0].split()
+                idem = t_[2] == str(len(ops[0].split()) - 1) and t_[3] == "1"
+                print("every inserted identifier found again, iteration ascending:", idem)
             if ops and ops[0].startswith("flip ") and impl[0]:
                 seg = [x.strip() for x in impl[0][0].split("#")]
                 idem = not (len(seg) == 3 and seg[0].startswith("ok ") and seg[0][3:].strip() != seg[1])
